@@ -218,3 +218,32 @@ impl vstd::std_specs::convert::FromSpecImpl<String> for Value {
     open spec fn obeys_from_spec() -> bool { true }
     open spec fn from_spec(v: String) -> Value { Value::String(v) }
 }
+
+// ---------------------------------------------------------------------------------------------
+// Native-object side of the evaluator (script.rs:71-86, 156-169): trait objects implemented by host objects
+// (redproxy's request adaptor, ScopeBinding, test objects).  Declared here with the SAME method names/signatures;
+// contracts are again the induction hypothesis (a member's value has the type its `type_of` announced).
+pub trait Evaluatable {
+    fn type_of(&self, ctx: ScriptContextRef) -> (r: Result<Type, Error>);
+    fn value_of(&self, ctx: ScriptContextRef) -> (r: Result<Value, Error>);
+}
+pub trait Accessible {
+    fn type_of(&self, name: &str, ctx: ScriptContextRef) -> (r: Result<Type, Error>);
+    fn get(&self, name: &str) -> (r: Result<Value, Error>);
+}
+pub trait Indexable {
+    fn length(&self) -> (r: usize);
+    fn type_of_member(&self, ctx: ScriptContextRef) -> (r: Result<Type, Error>);
+    fn get(&self, index: i64) -> (r: Result<Value, Error>);
+}
+impl NativeObjectRef {
+    #[verifier::external_body]
+    pub fn as_evaluatable(&self) -> (r: Option<&dyn Evaluatable>) { unimplemented!() }
+    #[verifier::external_body]
+    pub fn as_accessible(&self) -> (r: Option<&dyn Accessible>) { unimplemented!() }
+    #[verifier::external_body]
+    pub fn as_indexable(&self) -> (r: Option<&dyn Indexable>) { unimplemented!() }
+}
+/// `Arc<Vec<Value>>::as_ref()` (std AsRef for Arc; its spec needs the unstable Allocator parameter)
+#[verifier::external_body]
+pub fn vf_arc_vec_as_ref(a: &Arc<Vec<Value>>) -> (r: &Vec<Value>) ensures *r == **a { unimplemented!() }
